@@ -85,3 +85,9 @@ mod tests {
         Ok(())
     }
 }
+
+#[cfg(noodles_verif)]
+#[doc(hidden)]
+pub fn __verif_region_to_bin(alignment_start: Position, alignment_end: Position) -> u16 {
+    region_to_bin(alignment_start, alignment_end)
+}
